@@ -2,6 +2,7 @@
 # Re-evaluates kept seeded changes against the CURRENT /repo HEAD and the current checks.
 # usage: tools/reeval_seeds.sh C01 C02 ...   (properties; default all)    output: one line per seed
 cd "$(dirname "$0")/.."
+for i in 01 02 03 04 05 06 07 08 09 10 11 12 13 14 15 16 17 18 19 20; do mkdir -p /tmp/seedout_C$i /tmp/seedout2_C$i /tmp/seedout3_C$i; done
 PROPS=${*:-"C01 C02 C03 C04 C05 C06 C07 C08 C09 C10 C11 C12 C13 C14 C15 C16 C17 C18 C19 C20"}
 for P in $PROPS; do
   for D in seeded/${P}_*; do
